@@ -473,3 +473,85 @@ Proof.
   cbv zeta. split; [exact ex_at|]. split; [exact ex_s|]. vm_compute. repeat split.
 Qed.
 End C01_translated_splice.
+
+(* ------------------------------------------------------------------------------------------ *)
+(* THE READ PATH IS THE C TEXT (coq/TrRead.v, model coq/IoReadDefs.v): lbuf_rd of /repo/lbuf.c, translated by tools/c2clite.py
+   (whitelist tools/c2clite.d/99zzzzz_read.list) and run by coq/CLite.v, with read(2) as an ORACLE in the style of the write path:
+   read_oracle ext rs rl says that ext answers X_read as the kernel whose state lives in two memory blocks -- block rs the READ
+   SCHEDULE still to come (IoReadDefs.rout: RChunk bs = a read that delivers the bytes bs, a short read of any size; REof = 0;
+   RErr = -1; exhausted = end of file), one result consumed per call, block rl the log of the calls (fd, count asked for, result).
+   The whole 1024-cell buffer handed to read must lie inside one live block (Err EOob otherwise).  sbuf_make / sbuf_mem /
+   sbuf_buf / sbuf_free are the translated sbuf.c (the C01_tr_sbuf theorems); lbuf_edit is the oracle index X_lbuf_edit (edit_oracle: called
+   with a pointer to the start of a block holding a text and its terminator it returns, relates the memories by E, leaves the
+   younger blocks alone).
+   C01_tr_lbuf_rd: for EVERY schedule of results read(fd, buf, 1024) can have (rout_ok 1024: 1..1024 bytes, 0, -1), below 500 MB
+   of text: lbuf_rd makes exactly the read(fd, buf, 1024) calls rd_log of the schedule up to its first result <= 0 and leaves the
+   rest of the schedule (rd_rest);
+     - that result is 0 (rd_ok): lbuf_edit is called ONCE, with lb, beg, end as given and a block that holds EXACTLY the
+       concatenation of the chunks delivered (rd_chunks) followed by the terminator; 0 is returned; the struct sbuf and its data
+       block are freed; the caller's blocks other than the kernel's are as they were when lbuf_edit was called;
+     - that result is -1: 1 is returned, lbuf_edit is NOT called -- the text read so far is DROPPED, the buffer stays as it was
+       (the statement holds for every oracle, so no call other than read can have happened).
+   C01_read_sched_model: the model of this (IoReadDefs.lbuf_rd_sched) is IoDefs.lbuf_edit on the concatenation of the chunks
+   delivered -- whatever the chunking --, i.e. for beg <= end <= |lines| the lines become
+   firstn beg lines ++ split_lines text ++ skipn end lines; 0 is returned iff no consumed result is an error. *)
+From NV Require IoReadDefs TrRead.
+Section C01_translated_read.
+Import CLite CLiteProps GenCFuncs CLiteExt IoReadDefs TrRead.
+
+Theorem C01_tr_lbuf_rd : forall ext rs rl m0 lb lo fd beg en s lg d fuel E,
+  read_oracle ext rs rl -> rworld_at rs rl m0 s lg -> Forall (rout_ok 1024) s ->
+  (Z.of_nat (length (concat (rd_chunks s))) <= 500000000)%Z -> (length s + 2 <= fuel)%nat ->
+  edit_oracle ext lb lo beg en (length m0) E ->
+  let t := concat (rd_chunks s) in
+  let old m := forall k, (k < length m0)%nat -> k <> rs -> k <> rl -> nth_error m k = nth_error m0 k in
+  if rd_ok s then
+    exists m1 m2 tb rest,
+      callx ext cprog fuel (S (S (S d))) F_lbuf_rd [VPtr lb lo; VInt fd; VInt beg; VInt en] m0
+      = Ok (VInt 0, upd (upd m2 tb []) (S (length m0)) []) /\
+      nth_error m1 tb = Some (map VInt (zb t) ++ VInt 0 :: rest) /\ (length m0 + 2 <= tb)%nat /\
+      rworld_at rs rl m1 (rd_rest s) (lg ++ rd_log fd s) /\ old m1 /\ E t m1 m2
+  else
+    exists mf,
+      callx ext cprog fuel (S (S (S d))) F_lbuf_rd [VPtr lb lo; VInt fd; VInt beg; VInt en] m0 = Ok (VInt 1, mf) /\
+      rworld_at rs rl mf (rd_rest s) (lg ++ rd_log fd s) /\ old mf.
+Proof. exact tr_lbuf_rd. Qed.
+Print Assumptions C01_tr_lbuf_rd.
+
+Theorem C01_read_sched_model : forall lb s b e,
+  lbuf_rd_sched lb s b e = (if rd_ok s then (IoDefs.lbuf_edit lb (concat (rd_chunks s)) b e, 0%Z) else (Some lb, 1%Z)) /\
+  s = rd_used s ++ rd_rest s /\ (rd_ok s = false <-> In RErr (rd_used s)) /\ rd_chunks (rd_used s) = rd_chunks s /\
+  (rd_ok s = true -> (0 <= ln_sz lb)%Z -> (b <= e <= length (ln lb))%nat ->
+   exists lb', lbuf_rd_sched lb s b e = (Some lb', 0%Z) /\
+     ln lb' = firstn b (ln lb) ++ split_lines (concat (rd_chunks s)) ++ skipn e (ln lb)) /\
+  (forall chunks, rd_chunks (sched_of chunks REof) = chunks /\ rd_ok (sched_of chunks REof) = true /\
+                  rd_chunks (sched_of chunks RErr) = chunks /\ rd_ok (sched_of chunks RErr) = false).
+Proof.
+  intros lb s b e. split; [apply lbuf_rd_sched_spec|]. split; [apply rd_used_rest|]. split; [apply rd_ok_iff|].
+  split; [apply rd_chunks_used|]. split; [apply lbuf_rd_sched_lines|].
+  intro chunks. destruct (rd_sched_of chunks REof) as (A & _ & _ & B); [discriminate|].
+  destruct (rd_sched_of chunks RErr) as (C & _ & _ & D); [discriminate|]. repeat split; assumption.
+Qed.
+Print Assumptions C01_read_sched_model.
+
+(* not vacuous, and the translated lbuf_rd RUNS (ex_rd: lbuf_rd(block 0, 7, 2, 2); block 1 the schedule, block 2 the read log,
+   block 3 the log of a logging lbuf_edit oracle: 9, beg, end, the cells of the C string it was handed) *)
+Example C01_tr_lbuf_rd_nonvacuous :
+  let s1 := [RChunk [97; 98; 10; 99]%N; RChunk [100; 10]%N; REof; RChunk [122]%N] in
+  let s2 := [RChunk [97; 98; 10; 99]%N; RErr; REof] in
+  read_oracle (rsys 1 2 3) 1 2 /\ edit_oracle (rsys 1 2 3) 0 0 2 2 4 (logged 3 2 2) /\
+  rworld_at 1 2 [[VInt 0]; enc_rs s1; []; []] s1 [] /\ Forall (rout_ok 1024) s1 /\ Forall (rout_ok 1024) s2 /\
+  (* two short reads, then end of file: one lbuf_edit with the concatenation "ab\ncd\n", 0 returned, the fourth result not consumed *)
+  ex_rd s1 = Some (VInt 0, enc_rs [RChunk [122]%N], enc_rlog [EvRead 7 1024 4; EvRead 7 1024 2; EvRead 7 1024 0],
+                   [VInt 9; VInt 2; VInt 2; VInt 97; VInt 98; VInt 10; VInt 99; VInt 100; VInt 10]) /\
+  rd_chunks s1 = [[97; 98; 10; 99]%N; [100; 10]%N] /\ rd_ok s1 = true /\
+  (* a short read, then an error: 1 returned, NO lbuf_edit (the partial text "ab\nc" is dropped) *)
+  ex_rd s2 = Some (VInt 1, enc_rs [REof], enc_rlog [EvRead 7 1024 4; EvRead 7 1024 (-1)], []) /\ rd_ok s2 = false /\
+  (* an empty file: lbuf_edit with the empty string *)
+  ex_rd [] = Some (VInt 0, [], enc_rlog [EvRead 7 1024 0], [VInt 9; VInt 2; VInt 2]).
+Proof.
+  cbv zeta. split; [apply rsys_read_oracle; discriminate|]. split; [apply rsys_edit_oracle; repeat constructor|].
+  split; [split; reflexivity|].
+  split; [repeat constructor|]. split; [repeat constructor|]. vm_compute. repeat split.
+Qed.
+End C01_translated_read.
